@@ -13,7 +13,6 @@ SEEDS = {
     "C06": ("C06", "persistent tensors kept in a finite memory and >= 2 Einsums joined; the branch that loses the persistent bytes sets the peak", ["C06"]),
     "C08": ("C08", "rank size with >= 2 distinct prime factors, 3-level hierarchy, >= 1000 partial tile shapes, tight buffers", ["C08"]),
     "C11": ("C11", ">= 3 varying columns, >= 16 mutually non-dominated rows, a row dominated only by the row in window slot 15/31/…", ["C11"]),
-    "C13": ("C13", "fused join where the second Einsum holds a tile above the split and the first Einsum's table has the same reservation column with a different value; binding capacity", ["C13", "C03", "C04"]),
     "C07": ("C07", "compute-bound latency with an integer throughput that does not divide the operation count (an exact symengine Rational reaches the symengine->sympy conversion)", ["C07"]),
     "C10": ("C10", "imperfect factorisation with an inner size > 1 and an odd outer/inner ratio >= 3", ["C10"]),
     "C12": ("C12", "a tolerance > 0 and two values on both sides of 1.0 inside the widened log-scale bucket 0 but more than (1+t) apart", ["C12"]),
